@@ -573,7 +573,7 @@ func init() {
 				b = 3
 			}
 			out = append(out, schedScenario{
-				Name: strings.Join(ns, " || "), Tag: "conc", Bound: b, MaxExec: 200000,
+				Name: strings.Join(ns, " || "), Tag: "conc", Bound: b, MaxExec: 200000, Shards: map[bool]int{true: 8, false: 1}[len(set) > 2],
 				Fresh: func() ([]func() string, []string) {
 					k2 := c13parse(c12B)
 					_ = k2.String()
